@@ -509,10 +509,10 @@ class Report:
         nob = len(self.obligations)
         nok = sum(1 for o in self.obligations if o['ok'])
         status = 0
-        if self.broken:
+        if real:
+            status = 1      # a concrete violating construct was found (reported even if another rule lost its anchor)
+        elif self.broken:
             status = 2
-        elif real:
-            status = 1
         lvl = level
         cov = {}
         import random
